@@ -5,6 +5,7 @@ import gen, core, oracles as orc, truth as tr
 import observe as ob
 from observe import pyham, ag, pathof, taxS, nodekey, gtax, genomes_of, all_nodes, leaves
 from props import Explorer, budget, std_dataset, respell, load_or_fail, tax_q, histories, nontrivial
+import props
 
 # ------------------------------------------------------------------------------ helpers
 
@@ -54,7 +55,14 @@ def c13(tier, seed):
     n = budget(tier, 25)
     leaf_tags = ['clade_name', 'taxonomy_scientific_name', 'taxonomy_code']
     for k in range(n):
-        D = std_dataset(ex.rng, naming='own', maxleaves=ex.rng.choice([3, 4, 5, 6, 8]), no_unary=True)   # synthesised names need arity >= 2
+        # (synthesised names need arity >= 2: a sixth of the cases has unary levels and is loaded with the tree's own names only --
+        # r12-C13b: single-child clades dropped on the PhyloXML route)
+        unary13 = ex.rng.random() < 0.17
+        D = std_dataset(ex.rng, naming='own', maxleaves=ex.rng.choice([3, 4, 5, 6, 8]), no_unary=not unary13,
+                        **(dict(P=dict(props.mix_params(ex.rng), unary_trees=1.0)) if unary13 else {}))
+        unary13 = gen.has_unary(D.T)
+        if unary13:
+            ex.res.count('trees_with_unary_levels')
         cid = 'C13-%d' % k
         ex.note_dataset(D)
         if ex.rng.random() < 0.4:
@@ -112,6 +120,8 @@ def c13(tier, seed):
         for tree_kind in ('newick_string', 'newick', 'newick_noint') + (('phyloxml',) if D.T[0] != '' and not D.meta.get('no_phyloxml') else ()):
             for naming in ('own', 'synth'):
                 if tree_kind == 'newick_noint' and naming == 'own':
+                    continue
+                if unary13 and naming == 'synth':
                     continue
                 for transport in ('string', 'string1', 'file', 'file1', 'gz', 'gzmulti', 'bigfile', 'bigstring'):
                     for prog in (False, True):
@@ -230,7 +240,8 @@ def c13(tier, seed):
         ex.submit(cid + '-own', D, o.tags, ['load', 'genes', 'members', 'forest', 'genomes', 'vmap', 'tpfull'], emit=['profiles'], queries=q,
                   hist=not D.meta.get('mislabelled'))
         D2 = copy_dataset(D); D2.naming = 'synth'
-        ex.submit(cid + '-synth', D2, o.tags, ['load', 'genes', 'members', 'forest', 'genomes', 'vmap', 'tpfull'], emit=['profiles'], queries=q, hist=False)
+        if not unary13:      # (synthesised names are not defined for trees with unary levels)
+            ex.submit(cid + '-synth', D2, o.tags, ['load', 'genes', 'members', 'forest', 'genomes', 'vmap', 'tpfull'], emit=['profiles'], queries=q, hist=False)
     ex.finish()
     ex.close()
     return ex.res
@@ -349,9 +360,13 @@ def c14(tier, seed):
         base = load_or_fail(ex, cid, D)
         if base is None:
             continue
-        ref, allp = canon_analysis(base)
-        pairs = allp if len(allp) <= 15 else ex.rng.sample(allp, 15)
-        ref, _ = canon_analysis(base, pairs)
+        try:
+            ref, allp = canon_analysis(base)
+            pairs = allp if len(allp) <= 15 else ex.rng.sample(allp, 15)
+            ref, _ = canon_analysis(base, pairs)
+        except Exception as e:      # noqa
+            ex.fail(cid, D, ['comparisons / profiles on the loaded analysis raised %s: %s' % (type(e).__name__, e)])
+            continue
         bad = []
         # a filtered load of the file and of its rewritings selects the same families (by a cross-reference value, preferably
         # one that several genes carry)
@@ -1106,6 +1121,27 @@ def c17(tier, seed):
         subids = sorted(set(str(x.hog_id) for t in hs[0].get_list_top_level_hogs() for x in all_nodes(t)
                             if isinstance(x, ag.HOG) and x.parent is not None and x.hog_id is not None) | set(str(k_) for k_ in hs[0].get_dict_top_level_hogs() if k_ is not None))
         bad = []
+        # "several analyses built from the same inputs": also when the inputs include one ParserFilter OBJECT that is handed to
+        # every load (r12-C17a: the indexing pass ticks queried gene ids off the filter's own query set) -- the second analysis
+        # is what the first one is, and what a fresh filter with the same queries gives
+        if k % 4 == 2 and genes and tids and all(t_ is not None for t_ in tids):
+            kind_f = ex.rng.choice(['int', 'int', 'ext', 'hog'])
+            q_f = (ex.rng.sample(genes, min(len(genes), ex.rng.randint(1, 3))) if kind_f == 'int' else
+                   ex.rng.sample(xvals17, min(len(xvals17), 2)) if kind_f == 'ext' else ex.rng.sample([str(t_) for t_ in tids], 1))
+            def mk_f():
+                f_ = pyham.ParserFilter()
+                dict(int=f_.add_hogs_via_GeneIntId, ext=f_.add_hogs_via_GeneExtId, hog=f_.add_hogs_via_hogId)[kind_f](list(q_f))
+                return f_
+            if q_f:
+                try:
+                    shared_f = mk_f()
+                    sn_ = [snapshot(core.load_py(D, filter_object=shared_f)), snapshot(core.load_py(D, filter_object=shared_f)),
+                           snapshot(core.load_py(D, filter_object=mk_f()))]
+                    ex.res.count('analyses_built_through_one_filter_object')
+                    if not (sn_[0] == sn_[1] == sn_[2]):
+                        bad.append('two analyses built from the same inputs through one ParserFilter object (%s ids %s) differ from each other or from a load through a fresh filter' % (kind_f, q_f))
+                except Exception as e:      # noqa
+                    bad.append('loading twice through one ParserFilter object raised %s: %s' % (type(e).__name__, e))
         ops = []
         nops = ex.rng.randint(5, 40 if tier == 'thorough' else 25)
         for _ in range(nops):
